@@ -481,7 +481,21 @@ def check_buffer_agreement(chk, facts):
                     sizes[ty] = (sz, al)
     chk.floor("C12-d", "element types carved by alloc_slice", len(sizes), 5)
 
-    def label_edge(body, t, tgt):
+    def label_name(body, op, helper=False):
+        e = expr_of(body, op)
+        s = show(body, e)
+        name = None
+        if "has_variations" in s and "discr" not in s:
+            return "V"
+        l = body.root_local(op)
+        if l is not None and 0 < l <= body.argc and body.local_ty(l) == "bool" and e[0] in ("param", "local"):
+            # inside a helper a bool parameter stands for whatever the caller passes
+            return ("P", l) if helper else "H"
+        if l is not None and body.local_name(l) in ("hinting", "hinted"):
+            return "H"
+        return None
+
+    def label_edge(body, t, tgt, helper=False):
         e = expr_of(body, t.d[1])
         s = show(body, e)
         name = None
@@ -492,11 +506,7 @@ def check_buffer_agreement(chk, facts):
             name = "V"
         else:
             # the "hinted" flag: a plain `bool` parameter tested directly (whatever it is called)
-            l = body.root_local(t.d[1])
-            if l is not None and 0 < l <= body.argc and body.local_ty(l) == "bool" and e[0] in ("param", "local"):
-                name = "H"
-            elif l is not None and body.local_name(l) in ("hinting", "hinted"):
-                name = "H"
+            name = label_name(body, t.d[1], helper)
         if name is None:
             return None
         for v, b2 in t.d[2]:
@@ -542,23 +552,29 @@ def check_buffer_agreement(chk, facts):
         outs = set()
 
         def on_edge2(bb, tgt, t, state, env, trace):
-            lab = label_edge(m, t, tgt)
+            lab = label_edge(m, t, tgt, helper=depth > 0)
             if lab is None:
                 return None
             labels, seq = state
             return (labels | {lab}, seq)
 
+        def count_field(op):
+            # the count of a carve: a field of the outline description, or (in a helper) one of the helper's parameters
+            e = strip_casts(expr_of(m, op))
+            fld = None
+            if e[0] == "proj":
+                for x in e[2]:
+                    if isinstance(x, tuple) and x[0] == "f" and x[2]:
+                        fld = x[2]
+            elif e[0] == "param" and depth > 0:
+                fld = ("param", e[1])
+            return fld
+
         def on_call2(bb, t, state, env, trace):
             labels, seq = state
             if t.callee.endswith("memory::alloc_slice"):
                 ty = t.d["cargs"].strip("[]")
-                e = expr_of(m, t.args[1])
-                fld = None
-                if e[0] == "proj":
-                    for x in e[2]:
-                        if isinstance(x, tuple) and x[0] == "f" and x[2]:
-                            fld = x[2]
-                return [((labels, seq + ((fld, ty),)), None)]
+                return [((labels, seq + ((count_field(t.args[1]), ty),)), None)]
             if t.callee.startswith(MEM) and depth < 3 and facts.body(t.callee) is not None and t.callee != m.path:
                 sub = carve_outcomes(facts.body(t.callee), depth + 1)
                 if not sub:
@@ -570,6 +586,26 @@ def check_buffer_agreement(chk, facts):
                 for sl, ss in sub:
                     merged = dict(labels)
                     clash = False
+                    # the helper's parameters stand for the arguments of this call
+                    sl2 = []
+                    learnt = {}
+                    for k2, v2 in sl:
+                        if isinstance(k2, tuple) and k2[0] == "P":
+                            aop = t.args[k2[1] - 1] if k2[1] - 1 < len(t.args) else None
+                            k2 = label_name(m, aop, helper=depth > 0) if aop is not None else None
+                            # the helper took this branch, so the argument had this value: later tests of the same local in
+                            # the caller must agree (and earlier ones must have agreed)
+                            rl = m.root_local(aop) if aop is not None else None
+                            if rl is not None and m.local_ty(rl) == "bool":
+                                if env.vals.get(rl) is not None and env.vals.get(rl) != int(v2):
+                                    clash = True
+                                learnt[rl] = int(v2)
+                            if k2 is None:
+                                continue    # an argument the labels do not describe: both outcomes stay possible
+                        sl2.append((k2, v2))
+                    sl = sl2
+                    ss = tuple((count_field(t.args[f_[1] - 1]) if isinstance(f_, tuple) and f_[0] == "param" and f_[1] - 1 < len(t.args)
+                                else f_, ty_) for f_, ty_ in ss)
                     for k2, v2 in sl:
                         if k2 in merged and merged[k2] != v2:
                             clash = True
@@ -578,7 +614,10 @@ def check_buffer_agreement(chk, facts):
                         continue
                     # a single type parameter of the helper stands for the caller's type argument
                     ss2 = tuple((f_, targ if re.fullmatch(r"[A-Z]\w{0,2}(/#\d+)?", ty_) and "," not in targ else ty_) for f_, ty_ in ss)
-                    alts.append(((frozenset(merged.items()), seq + ss2), {t.dest[0]: ek[0]} if ek and not t.dest[1] else None))
+                    fx = dict(learnt)
+                    if ek and not t.dest[1]:
+                        fx[t.dest[0]] = ek[0]
+                    alts.append(((frozenset(merged.items()), seq + ss2), fx or None))
                 if ek and not t.dest[1]:
                     alts.append(((labels, seq), {t.dest[0]: ek[1]}))     # the helper failed: the caller's `?` leaves
                 return alts or None
